@@ -452,7 +452,8 @@ macro_rules! impl_builds {
             }
             fn extra_checks(cx: &mut Ctx, f: &VFunc<K::T, $w, Self, $s, $e>, keys: &[K::Owned], values: &[$w], what: &str) -> R {
                 // get_unaligned is documented for widths <= BITS-6, BITS-4 and BITS (the builder adds the padding word)
-                let max = values.iter().copied().max().unwrap_or(0);
+                // only the values that have a key count (the value source may be longer)
+                let max = values[..keys.len().min(values.len())].iter().copied().max().unwrap_or(0);
                 let width = ((<$w>::BITS - max.leading_zeros()) as usize).max(1);
                 let bits = <$w>::BITS as usize;
                 if keys.is_empty() || !(width <= bits - 6 || width == bits - 4 || width == bits) {
